@@ -52,7 +52,9 @@ def swap_tokens(tree, pairs):
     for a, b in pairs:
         m[a] = b
         m[b] = a
-    rx = re.compile(r'(?<![A-Za-z0-9])(' + '|'.join(sorted((re.escape(k) for k in m), key=len, reverse=True)) + r')(?![A-Za-z0-9])')
+    # whole identifiers only: `max` is swapped, `max_by` is not (Iterator::max_by keeps the LAST maximum while min_by keeps the
+    # FIRST minimum: they are not mirror images with respect to ties)
+    rx = re.compile(r'(?<![A-Za-z0-9_])(' + '|'.join(sorted((re.escape(k) for k in m), key=len, reverse=True)) + r')(?![A-Za-z0-9_])')
 
     def go(x):
         if isinstance(x, list):
